@@ -484,6 +484,28 @@ class Sdiv(LongThumbInstruction):
         return tokens[0].encode() + tokens[1].encode()
 
 
+class Udiv(LongThumbInstruction):
+    """Unsigned division.
+    Encoding T1
+    """
+
+    rd = Operand("rd", ArmRegister, write=True)
+    rn = Operand("rn", ArmRegister, read=True)
+    rm = Operand("rm", ArmRegister, read=True)
+    syntax = Syntax(["udiv", " ", rd, ",", " ", rn, ",", " ", rm])
+
+    def encode(self):
+        tokens = self.get_tokens()
+        tokens[0][11:16] = 0b11111
+        tokens[0][4:11] = 0b0111011
+        tokens[0][0:4] = self.rn.num
+        tokens[1][12:16] = 0b1111
+        tokens[1][8:12] = self.rd.num
+        tokens[1][4:8] = 0b1111
+        tokens[1][0:4] = self.rm.num
+        return tokens[0].encode() + tokens[1].encode()
+
+
 class regreg_base(ThumbInstruction):
     """??? Rdn, Rm"""
 
@@ -1232,6 +1254,25 @@ def pattern_rem32(context, tree, c0, c1):
     # Substract from divident:
     d = context.new_reg(LowArmRegister)
     context.emit(Sub3(d, c0, d2))
+    return d
+
+
+@thumb_isa.pattern("reg", "DIVU32(reg, reg)", size=10)
+def pattern_div_u32(context, tree, c0, c1):
+    d = context.new_reg(LowArmRegister)
+    context.emit(Udiv(d, c0, c1))
+    return d
+
+
+@thumb_isa.pattern("reg", "REMU32(reg, reg)", size=6, cycles=10, energy=5)
+def pattern_rem_u32(context, tree, c0, c1):
+    # Multiply the quotient by the divider:
+    d2 = pattern_div_u32(context, tree, c0, c1)
+    d3 = pattern_mul32(context, tree, d2, c1)
+
+    # Substract from the divident:
+    d = context.new_reg(LowArmRegister)
+    context.emit(Sub3(d, c0, d3))
     return d
 
 
